@@ -150,6 +150,19 @@ def realize(repo: Repo, chk: Check) -> None:
                    f"a kernel op {'reads' if which == 'copy-in' else 'writes'} the buffer iff the cast value is in its {side}",
                    f"for kernel ops the {'read' if which == 'copy-in' else 'write'} test is {[ast.unparse(st.value) for st in kernel_assigns]}; expected "
                    f"`cast value in use_op.{side}` (an operand used as both input and output must count for both copies)")
+        # every other user counts as a reader / writer (it may be one): only func.return is known not to write
+        denied = []
+        for if_ in [st for st in ast.walk(loop) if isinstance(st, ast.If)]:
+            for b_ in if_.body:
+                if isinstance(b_, ast.Assign) and isinstance(b_.targets[0], ast.Name) and b_.targets[0].id == flag and isinstance(b_.value, ast.Constant) and b_.value.value is False:
+                    if which == "copy-out" and "ReturnOp" in ast.unparse(if_.test) and not any(isinstance(c_, ast.Call) and isinstance(c_.func, ast.Name) and c_.func.id not in ("isinstance", "isa")
+                                                                                          for c_ in ast.walk(if_.test)):
+                        continue
+                    denied.append(ast.unparse(if_.test)[:80])
+        chk.result(not denied, rule, key + ":others-default-yes", s.where(), f"users that are no kernels count as {'readers' if which == 'copy-in' else 'writers'}"
+                   + (" (func.return excepted)" if which == "copy-out" else ""),
+                   f"users with `{denied[0] if denied else ''}` are declared not to {'read' if which == 'copy-in' else 'write'} the buffer: a memref.subview of the cast value is how "
+                   "kernels reach it - the stand-in buffer is then never filled from (copied back to) the original")
         kinds = [st for st in ast.walk(loop) if isinstance(st, ast.If) and "isinstance" in ast.unparse(st.test) and tv in ast.unparse(st.test)]
         src_if = " ".join(ast.unparse(k.test) for k in kinds)
         chk.result("GenericOp" in src_if and "StreamingRegionOpBase" in src_if, rule, key + ":kernel-kinds", s.where(), "linalg.generic and dart streaming regions are classified by operand role")
